@@ -1,0 +1,63 @@
+//go:build verif
+
+// Verification hooks: re-export internal entry points and unexported search
+// strategies for the out-of-module verification harness. Add-only; compiled
+// only with -tags verif.
+
+package strcase
+
+import (
+	"github.com/charlievieth/strcase/internal/bytealg"
+	"github.com/charlievieth/strcase/internal/tables"
+)
+
+const VerifNativeIndex = bytealg.NativeIndex
+
+func VerifCaseFold(r rune) rune { return tables.CaseFold(r) }
+
+func VerifFoldMap(r rune) (folds [4]uint16, ok bool) {
+	if p := tables.FoldMap(r); p != nil {
+		return *p, true
+	}
+	return folds, false
+}
+
+func VerifFoldMapExcludingUpperLower(r rune) [2]rune {
+	return tables.FoldMapExcludingUpperLower(r)
+}
+
+func VerifToUpperLower(r rune) (rune, rune, bool) { return tables.ToUpperLower(r) }
+
+func VerifLower(c byte) byte { return _lower[c] }
+
+func VerifBytealgIndexByte(b []byte, c byte) int         { return bytealg.IndexByte(b, c) }
+func VerifBytealgIndexByteString(s string, c byte) int   { return bytealg.IndexByteString(s, c) }
+func VerifBytealgCount(b []byte, c byte) int             { return bytealg.Count(b, c) }
+func VerifBytealgCountString(s string, c byte) int       { return bytealg.CountString(s, c) }
+func VerifBytealgIndexNonASCII(s string) int             { return bytealg.IndexNonASCII(s) }
+func VerifBytealgIndexByteNonASCII(b []byte) int         { return bytealg.IndexByteNonASCII(b) }
+func VerifBytealgCutover(n int) int                      { return bytealg.Cutover(n) }
+func VerifBytealgIndexString(s, substr string) int       { return bytealg.IndexString(s, substr) }
+func VerifBruteForceIndexUnicode(s, substr string) int   { return bruteForceIndexUnicode(s, substr) }
+func VerifIndexRabinKarpUnicode(s, substr string) int    { return indexRabinKarpUnicode(s, substr) }
+func VerifIndexRabinKarpRevUnicode(s, substr string) int { return indexRabinKarpRevUnicode(s, substr) }
+func VerifHasPrefixUnicode(s, prefix string) (bool, bool) {
+	return hasPrefixUnicode(s, prefix)
+}
+func VerifHasSuffixUnicode(s, suffix string) (bool, int) { return hasSuffixUnicode(s, suffix) }
+func VerifIndexRuneCase(s string, r rune) int            { return indexRuneCase(s, r) }
+func VerifIndexRune(s string, r rune) (int, int)         { return indexRune(s, r) }
+func VerifIndexRune2(s string, lower, upper rune) (int, int) {
+	return indexRune2(s, lower, upper)
+}
+func VerifLastIndexRune(s string, r rune) int    { return lastIndexRune(s, r) }
+func VerifIndexByte(s string, c byte) (int, int) { return indexByte(s, c) }
+func VerifNonLetterASCII(s string) bool          { return nonLetterASCII(s) }
+func VerifContainsKelvin(s string) bool          { return containsKelvin(s) }
+func VerifCountRune(s string, r rune) int        { return countRune(s, r) }
+func VerifMakeASCIISet(s, chars string) ([8]uint32, bool) {
+	as, ok := makeASCIISet(s, chars)
+	return as, ok
+}
+func VerifHashStrUnicode(sep string) (uint32, uint32, int)    { return hashStrUnicode(sep) }
+func VerifHashStrRevUnicode(sep string) (uint32, uint32, int) { return hashStrRevUnicode(sep) }
